@@ -291,14 +291,28 @@ def eval_factories(case):
     out = []
     try:
         base = base_cls()
+        mode = case.get("mode", "siblings")
+        if mode == "subclass":
+            # an application subclass with its own class-level defaults, customised further with using()
+            base = type("SiteTOTP", (base,), {"digits": 9, "period": 45})
         base_set = (base.alg, base.digits, base.period)
         made = []
+        cur, acc_opts = base, {}
         for opts in case["using"]:
-            made.append((base.using(**opts), opts))
+            if mode == "chained":
+                # each factory derived from the previous one: it inherits what the earlier calls configured
+                cur = cur.using(**opts)
+                acc_opts = dict(acc_opts, **opts)
+                made.append((cur, dict(acc_opts)))
+            else:
+                made.append((base.using(**opts), opts))
         checks = [(base, base_set, "parent class")]
         for F, opts in made:
             want = (opts.get("alg", base_set[0]), int(opts.get("digits", base_set[1])), int(opts.get("period", base_set[2])))
-            checks.append((F, want, f"factory using({opts})"))
+            checks.append((F, want, f"factory using({opts})" + (" [accumulated over the chain]" if mode == "chained" else " [on an application subclass with digits=9, period=45]" if mode == "subclass" else "")))
+            if not issubclass(F, base):
+                out.append(("C13|factories|not_a_subclass", f"using() sequence {case['using']} ({mode}): the factory is not a subclass of the class using() was called on"))
+                return out
         for cls_, (alg, digits, period), who in checks:
             o = cls_(key, format="raw")
             for t in (59, 1111111109):
@@ -453,13 +467,16 @@ def work(task):
         opts = [{"alg": "sha256"}, {"alg": "sha512"}, {"alg": "sha1"}, {"digits": 8}, {"period": 60}, {"alg": "sha256", "digits": 7}]
         for n in (1, 2, 3):
             for seq in itertools.permutations(opts, n):
-                case = {"kind": "factories", "key": key, "using": [dict(o) for o in seq]}
-                acc.ev()
-                acc.cls("factories", "/".join(",".join(f"{k}={v}" for k, v in o.items()) for o in seq))
-                found = eval_factories(case)
-                for k, desc in found:
-                    acc.violation(k, desc, case)
-                acc.outcome("violation" if found else "ok:factories")
+                for mode in ("siblings", "chained", "subclass"):
+                    if mode == "chained" and n == 1:
+                        continue
+                    case = {"kind": "factories", "key": key, "using": [dict(o) for o in seq], "mode": mode}
+                    acc.ev()
+                    acc.cls("factories", mode, "/".join(",".join(f"{k}={v}" for k, v in o.items()) for o in seq))
+                    found = eval_factories(case)
+                    for k, desc in found:
+                        acc.violation(k, desc, case)
+                    acc.outcome("violation" if found else f"ok:factories:{mode}")
     elif part == "tz":
         alg = task["alg"]
         key = make_key(seed, 20)
